@@ -20,6 +20,36 @@ CHECKS = {
     technique="TLA+ model checking (TLC: safety invariants incl. NoLostWakeup and liveness under weak fairness on ChannelConc) bound to channel.c by exact replay of exported thread schedules under a deterministic scheduler and by TLC trace validation (ChannelObs) of seeded random/PCT/starvation schedules with a deadlock/livelock oracle",
     text="ChannelConc runs the sequential channel operators under explicit lock/condition-variable control, one action per run-to-next-scheduling-point; TLC checks exhaustively that a sleeping writer always has a notify on its way (NoLostWakeup) and, under fairness, that it resumes, finishes, and is released by a refusal even when readers have stalled for good. Simulated behaviours are exported as schedules and replayed step by step on the real channel.c under the deterministic scheduler (scheduling point + cursors compared after every step); thousands of seeded schedules with stalling/holding/partial readers and a controller refusing writes at a scheduler-chosen instant are run with a hang oracle, every trace judged by ChannelObs.",
     note="Trusted: TLC; the deterministic scheduler's model of lock/cv semantics (platform.c's pthread wrappers are bypassed); sequentially consistent byte-sized flag accesses; readers eventually unmap; exhaustive for capacity 3(-4), <=2 readers, <=3 writes, <=2 toggles."),
+ "C04": dict(
+    category="model_checking", design_ref="DESIGN.md section 6 (C04), section 15",
+    technique="TLA+ observation specification (PipelineObs) evaluated by TLC over recorded traces of the real runtime executed under a deterministic scheduler (seeded random/PCT/starvation schedules, abort/fault sweeps, hang oracle)",
+    text="Every acquired frame reaches storage exactly once, in order, bit-exact: the real runtime (acquire.c/source.c/sink.c/filter.c/channel.c/HAL) runs under the deterministic scheduler with a mock driver and rings of 1.2-5 frames under seeded random/PCT/starvation schedules, 1-2 streams, 1-3 acquisitions, write delays, slow storage, polling clients; every execution trace is judged event by event by the TLA+ spec PipelineObs in TLC (StorAppend must continue the camera's sequence with identical ids/hardware ids/shape/pixel hash, packet stable during the call, stop of a clean finite run must have delivered exactly N).",
+    note="Trusted: TLC as the judge of PipelineObs; the deterministic scheduler's model of platform.h primitives; the mock driver (deterministic payloads, scripted pacing/faults); sequentially consistent flag accesses; client contract: a monitoring client keeps polling until the acquisition ends before it calls stop (a lagging registered monitor that calls stop on a full ring cannot be drained by anyone), and does not call start while another client call is in flight."),
+ "C05": dict(
+    category="model_checking", design_ref="DESIGN.md section 6 (C05), section 15",
+    technique="TLA+ observation specification (PipelineObs) evaluated by TLC over recorded traces of the real runtime executed under a deterministic scheduler (seeded random/PCT/starvation schedules, abort/fault sweeps, hang oracle)",
+    text="Packets are whole, exactly chained, 8-byte aligned frames: the same executions, judged by PipelineObs' layout rules on every storage packet and every monitor mapping (alignment of every header, size field = 8*ceil((hdr+w*h*bpp)/8) for all residues mod 8 and sample types, stepping lands exactly on the packet end, shape equals the camera's).",
+    note="Trusted: TLC as the judge of PipelineObs; the deterministic scheduler's model of platform.h primitives; the mock driver (deterministic payloads, scripted pacing/faults); sequentially consistent flag accesses; client contract: a monitoring client keeps polling until the acquisition ends before it calls stop (a lagging registered monitor that calls stop on a full ring cannot be drained by anyone), and does not call start while another client call is in flight."),
+ "C06": dict(
+    category="model_checking", design_ref="DESIGN.md section 6 (C06), section 15",
+    technique="TLA+ observation specification (PipelineObs) evaluated by TLC over recorded traces of the real runtime executed under a deterministic scheduler (seeded random/PCT/starvation schedules, abort/fault sweeps, hang oracle)",
+    text='Monitoring client sees a gap-free, duplicate-free, fresh sequence: client programs with partial unmaps, holding, first map in later acquisitions, maps after stop/abort; PipelineObs requires consecutive ids continuing the consumed cursor, frames identical to what the camera delivered in the *current* acquisition (payload depends on the acquisition), unchanged while mapped, nothing after stop/abort returned, map/unmap keep succeeding, storage rules unaffected.',
+    note="Trusted: TLC as the judge of PipelineObs; the deterministic scheduler's model of platform.h primitives; the mock driver (deterministic payloads, scripted pacing/faults); sequentially consistent flag accesses; client contract: a monitoring client keeps polling until the acquisition ends before it calls stop (a lagging registered monitor that calls stop on a full ring cannot be drained by anyone), and does not call start while another client call is in flight."),
+ "C07": dict(
+    category="model_checking", design_ref="DESIGN.md section 6 (C07), section 15",
+    technique="TLA+ observation specification (PipelineObs) evaluated by TLC over recorded traces of the real runtime executed under a deterministic scheduler (seeded random/PCT/starvation schedules, abort/fault sweeps, hang oracle)",
+    text='Abort and stop always return and leave a reusable runtime: abort injected at a sweep of scheduling distances and from a second client thread, with trigger-blocked cameras, infinite acquisitions, full rings, client holding a mapped region; hang oracle (deadlock / fair livelock) + PipelineObs rules at return (no worker alive, camera and storage stopped, Armed, storage got a gap-free prefix) and a complete correct acquisition afterwards.',
+    note="Trusted: TLC as the judge of PipelineObs; the deterministic scheduler's model of platform.h primitives; the mock driver (deterministic payloads, scripted pacing/faults); sequentially consistent flag accesses; client contract: a monitoring client keeps polling until the acquisition ends before it calls stop (a lagging registered monitor that calls stop on a full ring cannot be drained by anyone), and does not call start while another client call is in flight."),
+ "C09": dict(
+    category="fault_enumeration", design_ref="DESIGN.md section 6 (C09), section 15",
+    technique="TLA+ observation specification (PipelineObs) evaluated by TLC over recorded traces of the real runtime executed under a deterministic scheduler (seeded random/PCT/starvation schedules, abort/fault sweeps, hang oracle)",
+    text='A failing camera or storage winds the acquisition down cleanly: every frame index for camera faults and every append index for storage faults over random shapes/rings/schedules incl. slow storage (writer blocked on a full ring); hang oracle for stop and abort; PipelineObs: nothing appended after a storage failure, camera stopped, not Running once workers exited, later acquisition (after re-configure) complete and correct.',
+    note="Trusted: TLC as the judge of PipelineObs; the deterministic scheduler's model of platform.h primitives; the mock driver (deterministic payloads, scripted pacing/faults); sequentially consistent flag accesses; client contract: a monitoring client keeps polling until the acquisition ends before it calls stop (a lagging registered monitor that calls stop on a full ring cannot be drained by anyone), and does not call start while another client call is in flight."),
+ "C10": dict(
+    category="model_checking", design_ref="DESIGN.md section 6 (C10), section 15",
+    technique="TLA+ observation specification (PipelineObs) evaluated by TLC over recorded traces of the real runtime executed under a deterministic scheduler (seeded random/PCT/starvation schedules, abort/fault sweeps, hang oracle)",
+    text='Frame averaging emits the exact mean of each window: k in {2,3}, all integer types, rings of ~1.2-5 accumulators pre-filled with non-zero bytes, random schedules; PipelineObs: f32 frames, id = first frame of the window, windows consecutive, complete windows only after their inputs, mean within 1 ulp of sum/k recomputed from the camera payload, at least floor(N/k) frames at stop and at most one extra.',
+    note="Trusted: TLC as the judge of PipelineObs; the deterministic scheduler's model of platform.h primitives; the mock driver (deterministic payloads, scripted pacing/faults); sequentially consistent flag accesses; client contract: a monitoring client keeps polling until the acquisition ends before it calls stop (a lagging registered monitor that calls stop on a full ring cannot be drained by anyone), and does not call start while another client call is in flight."),
 }
 
 def main():
